@@ -2,12 +2,13 @@
 # (Re)generate _CoqProject from the files present and run a full .vo build (never -vos/-vok).
 # usage: coqbuild.sh [make-target...]   (default: all)
 set -e
+ulimit -v ${COQ_MEM_KB:-16000000} 2>/dev/null || true   # a runaway proof must not take the machine down
 cd /verif/coq
 mkdir -p Gen
 { cat _CoqProject.head; find Base Gen Model Proofs Props -name '*.v' 2>/dev/null | sort; } > _CoqProject.new
 if ! cmp -s _CoqProject.new _CoqProject 2>/dev/null; then mv _CoqProject.new _CoqProject; coq_makefile -f _CoqProject -o Makefile >/dev/null; else rm _CoqProject.new; fi
 [ -f Makefile ] || coq_makefile -f _CoqProject -o Makefile >/dev/null
-timeout ${COQ_TIMEOUT:-3000} make -j${COQ_JOBS:-16} "$@" && exit 0
+timeout ${COQ_TIMEOUT:-1800} make -j${COQ_JOBS:-16} "$@" && exit 0
 # one retry: a freshly generated directory/file can be missed by the first dependency scan
 rm -f .Makefile.d
-exec timeout ${COQ_TIMEOUT:-3000} make -j${COQ_JOBS:-16} "$@"
+exec timeout ${COQ_TIMEOUT:-1800} make -j${COQ_JOBS:-16} "$@"
